@@ -92,6 +92,33 @@ pub fn run(op: &str, case: &Value) -> Result<Value> {
                 Err(e) => errv(e),
             }
         }
+        "relax_restore" => {
+            let mut inst: v1::Instance = msg(&case["instance"])?;
+            let mut results = vec![];
+            for o in case["ops"].as_array().ok_or_else(|| anyhow!("ops"))? {
+                let kind = o[0].as_str().unwrap_or("");
+                let id = ju(&o[1])?;
+                let reason = o[2].as_str().unwrap_or("").to_string();
+                let r = if kind == "relax" {
+                    let mut p = std::collections::HashMap::new();
+                    p.insert("step".to_string(), reason.clone());
+                    inst.relax_constraint(id, reason, p)
+                } else {
+                    inst.restore_constraint(id)
+                };
+                results.push(r.is_ok());
+            }
+            let mut out = json!({"results": results, "instance": enc(&inst)});
+            if let Some(s) = case["state"].as_str() {
+                if !s.is_empty() {
+                    let st: v1::State = msg(&case["state"])?;
+                    if let Ok((sol, _)) = inst.evaluate(&st) {
+                        out["solution"] = enc(&sol);
+                    }
+                }
+            }
+            json!({"ok": out})
+        }
         _ => bail!("unknown op {op}"),
     })
 }
